@@ -31,69 +31,104 @@ Proof.
   - left. exact H.
 Qed.
 
-Lemma step_trees : forall fx s a s' i,
-  step fx s a = Some s' -> trees s' i <> TAbsent -> trees s i <> TAbsent \/ In i (dasks a).
+(* [Sol s D]: every id in the store, and every id a message thread found in the store and has
+   not yet delivered for, is among the solicited ids D *)
+Definition Sol (s : st) (D : list nat) : Prop :=
+  (forall i, trees s i <> TAbsent -> In i D) /\ (forall k, In k (hits s) -> In (tree_of k) D).
+
+Lemma in_remove_tok' : forall k x l, In x (remove_tok k l) -> In x l.
 Proof.
-  intros fx s a s' i H Hne.
-  destruct a as [j|k|k|k|k|j|j|j|k|c|c|c|j]; cbn [step dasks] in H |- *.
-  - (* LocalTree *) inversion H; subst. cbn [trees] in Hne. apply upd_neq_absent in Hne as [Hn| -> ]; auto. right; left; reflexivity.
-  - (* LocalCreate *)
-    destruct (window_busy fx s); [discriminate|]. destruct (inst s k); inversion H; subst; auto.
-  - (* LocalSet *)
-    destruct (inst s k); inversion H; subst. cbn [trees] in Hne.
-    apply upd_neq_absent in Hne as [Hn| -> ]; auto. right; left; reflexivity.
-  - (* MsgLookup *)
-    destruct (window_busy fx s); [discriminate|]. destruct (trees s (tree_of k)); inversion H; subst; auto.
-  - (* MsgDeliver *)
-    destruct (negb (mem_tok k (hits s))); [discriminate|].
-    destruct (inst s k); try discriminate.
-    + inversion H; subst; auto.
-    + inversion H; subst; auto.
-    + match type of H with (if ?c then _ else _) = _ => destruct c end; inversion H; subst;
-        [rewrite trees_remove_tree in Hne|]; auto.
-  - (* MissCheck *)
-    destruct (negb (mem_nat j (misses s))); [discriminate|]. destruct (trees s j); inversion H; subst; auto.
-  - (* MissRegister *)
-    destruct (negb (mem_nat j (regs s))); [discriminate|]. inversion H; subst. cbn [trees] in Hne.
-    match type of Hne with (if ?c then _ else _) _ <> _ => destruct c end; auto.
-    apply upd_neq_absent in Hne as [Hn| -> ]; auto. right; left; reflexivity.
-  - (* TreeArrive *)
-    destruct (trees s j) eqn:Et; inversion H; subst; auto; cbn [trees] in Hne;
-      apply upd_neq_absent in Hne as [Hn| -> ]; auto; left; congruence.
-  - (* Done *)
-    destruct (window_busy fx s); [discriminate|]. destruct (inst s k); try discriminate.
-    match type of H with (if ?c then _ else _) = _ => destruct c end; inversion H; subst;
-      [|rewrite trees_remove_tree in Hne]; auto.
-  - (* TimerFire *)
-    destruct (find_timer c (timers s)) as [[c' t' [|]]|]; inversion H; subst; auto.
-  - (* TimerCancel *)
-    destruct (find_timer c (timers s)) as [[c' t' [|]]|]; try discriminate.
-    destruct (mem_nat c (chclosed s)); inversion H; subst; auto.
-  - (* TimerDelete *)
-    destruct (find_timer c (timers s)) as [[c' t' [|]]|]; try discriminate.
-    match type of H with (if ?c then _ else _) = _ => destruct c end; inversion H; subst; auto.
-    cbn [trees] in Hne. unfold upd in Hne. destruct (i =? t'); [congruence|auto].
-  - (* ReqTree *) inversion H; subst; auto.
+  intros k x l. induction l as [|y r IH]; cbn; auto. destruct (tok_eqb y k); cbn; intros H; auto.
+  destruct H; auto.
 Qed.
 
-Lemma run_trees : forall fx acts s s' i,
-  run fx s acts = Some s' -> trees s' i <> TAbsent -> trees s i <> TAbsent \/ In i (dasked acts).
+Lemma mem_tok_In' : forall k l, mem_tok k l = true -> In k l.
 Proof.
-  intros fx acts. induction acts as [|a r IH]; intros s s' i H Hne; cbn [run dasked flat_map] in *.
-  - inversion H; subst. auto.
+  intros k l H. unfold mem_tok in H. apply existsb_exists in H as (x & Hx & E).
+  unfold tok_eqb in E. apply andb_true_iff in E as [E1 E2]. apply Nat.eqb_eq in E1, E2.
+  destruct k, x; cbn in *; subst; auto.
+Qed.
+
+Lemma step_sol : forall fx s a s' D,
+  Sol s D -> step fx s a = Some s' -> Sol s' (D ++ dasks a).
+Proof.
+  intros fx s a s' D [HT HH] H.
+  assert (W : forall (P : nat -> Prop), (forall i, P i -> In i D) -> forall i, P i -> In i (D ++ dasks a)).
+  { intros P HP i Hi. apply in_or_app. left. auto. }
+  destruct a as [j|k|k|k|k|j|j|j|k|c|c|c|j]; cbn [step dasks] in H |- *.
+  - (* LocalTree *) inversion H; subst. split; cbn [trees hits].
+    + intros i Hne. apply upd_neq_absent in Hne as [Hn| -> ]; apply in_or_app; [left; auto|right; left; reflexivity].
+    + intros k Hk. apply in_or_app. left. auto.
+  - (* LocalCreate *)
+    destruct (inst s k); inversion H; subst. split; cbn [trees hits]; intros; apply in_or_app; left; auto.
+  - (* LocalSet *)
+    destruct (inst s k); inversion H; subst. split; cbn [trees hits].
+    + intros i Hne. apply upd_neq_absent in Hne as [Hn| -> ]; apply in_or_app; [left; auto|right; left; reflexivity].
+    + intros k' Hk. apply in_or_app. left. auto.
+  - (* MsgLookup *)
+    destruct (trees s (tree_of k)) eqn:Et; inversion H; subst; split; cbn [trees hits]; intros; apply in_or_app; left; auto.
+    destruct H0 as [<-|H0]; auto. apply HT. congruence.
+  - (* MsgDeliver *)
+    destruct (negb (mem_tok k (hits s))) eqn:Em; [discriminate|]. apply negb_false_iff in Em. apply mem_tok_In' in Em.
+    destruct (inst s k); try discriminate.
+    + inversion H; subst. split; cbn [trees hits].
+      * intros i Hne. apply in_or_app. left. destruct (f27 fx); auto.
+        apply upd_neq_absent in Hne as [Hn| -> ]; auto.
+      * intros k' Hk. apply in_or_app. left. apply HH. eapply in_remove_tok'; eauto.
+    + inversion H; subst. split; cbn [trees hits]; intros; apply in_or_app; left; auto.
+      apply HH. eapply in_remove_tok'; eauto.
+    + match type of H with (if ?c then _ else _) = _ => destruct c end; inversion H; subst; split;
+        try rewrite trees_remove_tree; cbn [trees hits]; intros; apply in_or_app; left; auto.
+      * unfold remove_tree in H0. destruct (cancel _ _); cbn in H0; apply HH; eapply in_remove_tok'; eauto.
+      * apply HH; eapply in_remove_tok'; eauto.
+  - (* MissCheck *)
+    destruct (negb (mem_nat j (misses s))); [discriminate|].
+    destruct (trees s j); inversion H; subst; split; cbn [trees hits]; intros; apply in_or_app; left; auto.
+  - (* MissRegister *)
+    destruct (negb (mem_nat j (regs s))); [discriminate|]. inversion H; subst. split; cbn [trees hits].
+    + intros i Hne.
+      match type of Hne with (if ?c then _ else _) _ <> _ => destruct c end; [apply in_or_app; left; auto|].
+      apply upd_neq_absent in Hne as [Hn| -> ]; apply in_or_app; [left; auto|right; left; reflexivity].
+    + intros k Hk. apply in_or_app. left. auto.
+  - (* TreeArrive *)
+    destruct (trees s j) eqn:Et; inversion H; subst; split; cbn [trees hits]; intros; apply in_or_app; left; auto.
+    apply upd_neq_absent in H0 as [Hn| -> ]; auto. apply HT. congruence.
+  - (* Done *)
+    destruct (inst s k); try discriminate.
+    match type of H with (if ?c then _ else _) = _ => destruct c end; inversion H; subst; split;
+      try rewrite trees_remove_tree; cbn [trees hits]; intros; apply in_or_app; left; auto.
+    unfold remove_tree in H0. destruct (cancel _ _); cbn in H0; auto.
+  - (* TimerFire *)
+    destruct (find_timer c (timers s)) as [[c' t' [|]]|]; inversion H; subst; split; cbn [trees hits]; intros; apply in_or_app; left; auto.
+  - (* TimerCancel *)
+    destruct (find_timer c (timers s)) as [[c' t' [|]]|]; try discriminate.
+    destruct (mem_nat c (chclosed s)); inversion H; subst; split; cbn [trees hits]; intros; apply in_or_app; left; auto.
+  - (* TimerDelete *)
+    destruct (find_timer c (timers s)) as [[c' t' [|]]|]; try discriminate.
+    match type of H with (if ?c then _ else _) = _ => destruct c end; inversion H; subst; split; cbn [trees hits]; intros;
+      apply in_or_app; left; auto.
+    unfold upd in H0. destruct (i =? t'); [congruence|auto].
+  - (* ReqTree *) inversion H; subst; split; cbn [trees hits]; intros; apply in_or_app; left; auto.
+Qed.
+
+Lemma run_sol : forall fx acts s s' D,
+  Sol s D -> run fx s acts = Some s' -> Sol s' (D ++ dasked acts).
+Proof.
+  intros fx acts. induction acts as [|a r IH]; intros s s' D HS H; cbn [run dasked flat_map] in *.
+  - inversion H; subst. now rewrite app_nil_r.
   - destruct (step fx s a) as [s1|] eqn:Es; [|discriminate].
-    destruct (IH _ _ _ H Hne) as [H1|H1].
-    + destruct (step_trees _ _ _ _ _ Es H1) as [H0|H0]; auto. right. apply in_or_app. auto.
-    + right. apply in_or_app. auto.
+    rewrite app_assoc. eapply IH; eauto. eapply step_sol; eauto.
 Qed.
 
 (* every interleaving, every variant: stored or requested only if registered locally or
-   asked for earlier *)
+   asked for earlier (with repair F27 the registration of an instance created for a message
+   stores the tree its thread had found in the store: found there, hence solicited) *)
 Theorem done_only_solicited : forall fx acts s i,
   run fx init acts = Some s -> trees s i <> TAbsent -> In i (dasked acts).
 Proof.
-  intros fx acts s i H Hne. destruct (run_trees _ _ _ _ _ H Hne) as [H0|H0]; [|exact H0].
-  exfalso. apply H0. reflexivity.
+  intros fx acts s i H Hne.
+  assert (S0 : Sol init []) by (split; cbn; intros; [congruence|tauto]).
+  destruct (run_sol _ _ _ _ _ S0 H) as [HT _]. apply (HT i Hne).
 Qed.
 
 (* a response for an id that is absent changes nothing *)
